@@ -3,6 +3,8 @@
 selftest/corpus.json holds edit specs (exact-string replacements, robust to line shifts):
   kind "mutant": a compiling edit that breaks the property; the property's rules must report a
                  finding whose rule id equals `rule` and whose construct contains `construct`.
+  (a spec may name a `base` patch under /verif/benign: the edit is then applied to that refactored variant of the tree,
+   so that the generalised recognisers are shown to still discriminate on the other spelling)
   kind "benign": a behaviour-preserving edit (rename, let-introduction, helper extraction,
                  reordering, equivalent arithmetic); the rules must report nothing new.
 Each spec is applied to a scratch copy of /repo's working tree (outside /repo and /verif, removed
@@ -74,10 +76,15 @@ def run_one(spec, repo, analyse_findings, known_keys):
     try:
         dst = os.path.join(work, "repo")
         copy_tree(repo, dst)
-        if "patch" in spec:
+        why = None
+        if "base" in spec:
+            # a mutant of a refactored variant: the behaviour-preserving patch first, the breaking edit on top of it
+            r = subprocess.run(["patch", "-p1", "-s", "-i", os.path.join(VERIF, spec["base"])], cwd=dst, capture_output=True, text=True)
+            why = None if r.returncode == 0 else "base patch does not apply: " + (r.stdout + r.stderr)[:200]
+        if why is None and "patch" in spec:
             r = subprocess.run(["patch", "-p1", "-s", "-i", spec["patch"]], cwd=dst, capture_output=True, text=True)
             why = None if r.returncode == 0 else "patch does not apply: " + (r.stdout + r.stderr)[:200]
-        else:
+        elif why is None:
             why = apply_spec(dst, spec)
         if why is not None:
             return {"name": spec["name"], "kind": spec["kind"], "status": "skipped", "why": why}
